@@ -4,7 +4,10 @@ package main
 // message, extreme IPv6 extension-header lengths on packets long enough to carry them, and
 // every 16-bit position of a frame set to 0 / 0xffff.
 
-import "encoding/binary"
+import (
+	"encoding/binary"
+	"fmt"
+)
 
 func ofFrame(ty uint8, length int, body []byte, buflen int) []byte {
 	b := make([]byte, 8, 8+len(body))
@@ -100,11 +103,17 @@ func giantFrames(all bool) []named {
 	}
 	// features reply: ports
 	add("features-reply/ports", ofFrame(6, 32+64*1023, make([]byte, 24+64*1023), 32+64*1023))
-	// tlv table mod / reply: maps
+	// tlv table mod / reply: maps (identical ones, and pairwise different ones)
 	{
 		mp := []byte{0xff, 0xff, 1, 4, 0, 1, 0, 0}
 		body := append([]byte{0, 0, 0x23, 0x20, 0, 0, 0, 24, 0, 0, 0, 0, 0, 0, 0, 0}, rep(mp, 65400)...)
 		add("tlv-table-mod/maps", ofFrame(4, 8+len(body), body, 8+len(body)))
+		maps := rep(mp, 65400)
+		for i := 0; i+8 <= len(maps); i += 8 { // class and index count up: no two maps alike
+			maps[i], maps[i+1], maps[i+4], maps[i+5] = byte(i>>11), byte(i>>3), byte(i>>11), byte(i>>3)
+		}
+		body2 := append([]byte{0, 0, 0x23, 0x20, 0, 0, 0, 24, 0, 0, 0, 0, 0, 0, 0, 0}, maps...)
+		add("tlv-table-mod/distinct-maps", ofFrame(4, 8+len(body2), body2, 8+len(body2)))
 	}
 	// bundle-add: a nested giant flow-mod, then properties
 	if all {
@@ -113,6 +122,38 @@ func giantFrames(all bool) []named {
 		body := append([]byte{0x4f, 0x4e, 0x46, 0, 0, 0, 8, 0xfd, 0, 0, 0, 7, 0, 0, 0, 0}, inner...)
 		body = append(body, rep(prop, 5000)...)
 		add("bundle-add/nested", ofFrame(4, 8+len(body), body, 8+len(body)))
+	}
+	return out
+}
+
+// deepFrames: nesting as deep as the frame allows - conntrack actions inside conntrack actions
+// inside a packet-out, and bundle-adds inside bundle-adds around a barrier request
+func deepFrames(all bool) []named {
+	var out []named
+	u16 := func(v int) []byte { return []byte{byte(v >> 8), byte(v)} }
+	depths := []int{12, 28, 60, 400}
+	if all {
+		depths = []int{3, 8, 12, 20, 28, 40, 60, 150, 400, 2700}
+	}
+	for _, d := range depths {
+		var acts []byte
+		for k := 0; k < d; k++ { // from the innermost outwards
+			ct := append([]byte{0xff, 0xff}, u16(24+len(acts))...)
+			ct = append(ct, 0, 0, 0x23, 0x20, 0, 35, 0, 1, 0, 0, 0, 0, 0, 0, 0xff, 0, 0, 0, 0, 0)
+			acts = append(ct, acts...)
+		}
+		if 24+len(acts) <= 65535 {
+			body := append(append([]byte{0xff, 0xff, 0xff, 0xff, 0, 0, 0, 1}, u16(len(acts))...), 0, 0, 0, 0, 0, 0)
+			body = append(body, acts...)
+			out = append(out, named{fmt.Sprintf("deep/conntrack-%d", d), ofFrame(13, 8+len(body), body, 8+len(body))})
+		}
+		msg := []byte{4, 20, 0, 8, 0, 0, 0, 9} // barrier request
+		for k := 0; k < d && len(msg)+24 <= 65535; k++ {
+			b := append([]byte{4, 4}, u16(24+len(msg))...)
+			b = append(b, 0, 0, 0, byte(k), 0x4f, 0x4e, 0x46, 0, 0, 0, 8, 0xfd, 0, 0, 0, 7, 0, 0, 0, 0)
+			msg = append(b, msg...)
+		}
+		out = append(out, named{fmt.Sprintf("deep/bundle-add-%d", d), msg})
 	}
 	return out
 }
